@@ -141,9 +141,18 @@ def _with_empty(draw, s):
     return [s[0], [[k, _with_empty(draw, v)] for k, v in s[1]]]
 
 
+def _widen(draw, s):
+    """adds 60-100 extra leaf keys to the top branch of t (and later some of them to u): size-dependent paths"""
+    n = draw(st.sampled_from([60, 64, 100]))
+    return [s[0], s[1] + [['w%03i' % i, ['leaf', i % 3]] for i in range(n)]]
+
+
 @st.composite
 def _merge_case(draw):
     t = draw(_t)
+    wide = draw(st.integers(0, 24)) == 0
+    if wide:
+        t = _widen(draw, t)
     if draw(st.integers(0, 3)) == 0:
         t = _with_empty(draw, t)
     kind = draw(st.sampled_from(['derived', 'derived', 'derived', 'independent', 'self', 'empty']))
@@ -155,6 +164,8 @@ def _merge_case(draw):
         u = t
     else:
         u = [draw(_btype), []]
+    if wide and u[1] and kind not in ('self', 'empty'):
+        u = [u[0], u[1] + [['w%03i' % i, ['leaf', 7]] for i in range(0, 60, 7)] + [['w500', ['leaf', 1]]]]
     return dict(t=t, u=u, kind=kind, ignore=draw(st.sampled_from([None, None, [None], [None, 0]])), via=draw(st.sampled_from(['tree_update', 'tree_update', 'add'])))
 
 
@@ -227,6 +238,8 @@ def run_merge(spec):
 
     def _has_empty(m):
         return isinstance(m, dict) and (not m or any(_has_empty(v) for v in m.values()))
+    if len(mt) >= 60:
+        cls.append('wide_branch_60+')
     if any(_has_empty(v) for v in mt.values()):
         cls.append('empty_branch_in_t')
         if any(isinstance(mt.get(k), dict) and not mt[k] and isinstance(mu.get(k), dict) and mu[k] for k in mu):
